@@ -36,3 +36,8 @@ Theorem C16_lookup_any_capitalisation : forall hs k k',
   ci_eqb k k' = true -> hdr_lookup (hdr_collect hs) k = hdr_lookup (hdr_collect hs) k'.
 Proof. exact lookup_any_case. Qed.
 Print Assumptions C16_lookup_any_capitalisation.
+
+(* Server: every list of product tokens (non-empty, without blanks) is read back as the same list *)
+Theorem C16_server_roundtrip : forall ts, Forall token_ok ts -> server_parse (server_write ts) = ts.
+Proof. exact server_roundtrip. Qed.
+Print Assumptions C16_server_roundtrip.
